@@ -253,6 +253,9 @@ def ev(e: Expr, pt: Point):
     if t == "opq":
         if e[1].startswith("unmodelled"):
             raise NotEvaluable(e[1])
+        fnmap = getattr(pt, "opq_fn", None)
+        if fnmap and e[1] in fnmap:
+            return fnmap[e[1]](pt, e)
         # an uninterpreted function of its arguments: equal argument values give equal results
         key = e
         if e[2] and all(isinstance(d, Expr) for d in e[2]) and e[3] is None:
